@@ -1,5 +1,6 @@
 (* Property C05 - Image polling accounts for exactly the frames it delivers, in every poll variant.
-   Statements only; proofs are in Proofs/ReaderProofs.v, ImageProofs.v, C05OracleProofs.v, C05Readable.v, C05Repeat.v.
+   Statements only; proofs are in Proofs/ReaderProofs.v, ImageProofs.v, C05OracleProofs.v, C05Readable.v, C05Repeat.v,
+   C05RepeatTerms.v.
 
    Reading guide.  `ctx bits init pos l fs` = the log `l` has term length 2^bits and initial term id `init`,
    `pos` is a non-negative position in term n = pos / 2^bits (n < 2^31) at a 32-aligned offset, and
@@ -23,6 +24,7 @@ Require Import V.Proofs.ImageProofs.
 Require Import V.Proofs.C05OracleProofs.
 Require Import V.Proofs.C05Readable.
 Require Import V.Proofs.C05Repeat.
+Require Import V.Proofs.C05RepeatTerms.
 Open Scope Z_scope.
 
 (* new_pos - old_pos = sum of the aligned lengths of the first k visible frames; the data frames among them are
@@ -128,6 +130,28 @@ Theorem C05_block : forall m bits init l im fs blimit,
 Proof. exact block_run. Qed.
 Print Assumptions C05_block.
 
+(* ... for EVERY block length limit that is an i32 (block_poll's parameter type), i32::MAX included: since fix
+   C05-block-poll-limit the sum term_offset + block_length_limit saturates instead of overflowing (before, limits with
+   offset + limit >= 2^31 made a debug build panic and a release build return 0 for ever, and had to be excluded above) *)
+Theorem C05_block_all : forall m bits init l im fs blimit,
+  ctx bits init (im_pos im) l fs -> im_closed im = false -> in_i32 blimit = true ->
+  exists k ds ws im', (k <= length fs)%nat /\ badm blimit fs k = true /\
+    image_block_poll m l im blimit = Ok (Ok (span_sum (consumed fs k)), ds, ws, im') /\
+    im_pos im' = im_pos im + span_sum (consumed fs k) /\
+    (0 < span_sum (consumed fs k) -> exists f, nth_error fs 0 = Some f /\ ds = [(im_pos im mod 2 ^ bits, f)]
+                                              /\ ws = [im_pos im + span_sum (consumed fs k)]) /\
+    (span_sum (consumed fs k) = 0 -> ds = [] /\ ws = []).
+Proof. intros m bits init l im fs blimit Hc Hcl Hb. apply (block_run_all m bits init l im fs blimit Hc Hcl). right. exact Hb. Qed.
+Print Assumptions C05_block_all.
+
+(* with "no limit" (any limit of at least a term length, i32::MAX included) a block_poll hands over everything visible up to
+   the first padding frame: a visible data frame at the position is never left behind *)
+Theorem C05_block_progress : forall m bits init l im f r blimit,
+  ctx bits init (im_pos im) l (f :: r) -> im_closed im = false -> in_i32 blimit = true -> 2 ^ bits <= blimit ->
+  exists ret ds ws im', image_block_poll m l im blimit = Ok (ret, ds, ws, im') /\ im_pos im + span f <= im_pos im'.
+Proof. exact block_progress. Qed.
+Print Assumptions C05_block_progress.
+
 (* a closed image does nothing *)
 Theorem C05_closed : forall m l im, im_closed im = true ->
   (forall limit, image_poll l im limit = Ok (Ok 0, [], [], im)) /\
@@ -176,6 +200,45 @@ Theorem C05_repeat : forall bits init n pre stream steps im a,
     im_pos im' = boundary bits n pre stream a' /\ cs = between pre stream a a'.
 Proof. exact repeat_polls. Qed.
 Print Assumptions C05_repeat.
+
+(* C05_repeat ACROSS TERM ENDS.  A multi-term stream: `terms` = the frame streams of the consecutive terms n0, n0+1, ...
+   (the first one after a prefix pre0 nobody reads; every term except possibly the last one is full: its frames end exactly at
+   the term length - terms_full).  A location (j, a) = frame boundary a of term j; lpos = its stream position; norm moves
+   the end of a full term to the start of the next one (same position: lpos_norm); gidx = index in the global frame sequence
+   G (all terms concatenated, each frame with its in-term offset); between_t g g' = the data frames of G between two global
+   boundaries.  polls_ok_t: every poll's snapshot of the log shows the term the subscriber stands in (partition
+   (n0 + j) mod 3, selected as C17 prescribes - inside `shows`) with at least the frames consumed so far.
+   Then over any number of polls of any flavours, limits, bounds and handler scripts, with the log growing and the
+   subscriber crossing any number of term ends (partition switches), the fragments consumed altogether are exactly the data
+   frames of the whole stream between the first and the last position, once each, in order; and positions are
+   n0 * 2^bits + |pre0| + the aligned lengths of the frames before (gpos). *)
+Theorem C05_repeat_terms : forall bits init n0 pre0 terms, terms_full bits pre0 terms -> forall steps im x,
+  polls_ok_t bits init n0 pre0 terms steps x -> im_pos im = lpos bits n0 pre0 terms x -> im_closed im = false ->
+  exists cs im' x', run_polls steps im = Some (cs, im') /\ (gidx terms x <= gidx terms x')%nat /\
+    im_pos im' = lpos bits n0 pre0 terms x' /\ im_closed im' = false /\ (valid terms x -> valid terms x') /\
+    cs = between_t pre0 terms (gidx terms x) (gidx terms x').
+Proof. exact repeat_polls_terms. Qed.
+Print Assumptions C05_repeat_terms.
+
+Theorem C05_repeat_global : forall bits init n0 pre0 terms, terms_full bits pre0 terms -> forall steps im x,
+  valid terms x -> polls_ok_t bits init n0 pre0 terms steps x -> im_pos im = gpos bits n0 pre0 terms (gidx terms x) ->
+  im_closed im = false ->
+  exists cs im' g', run_polls steps im = Some (cs, im') /\ (gidx terms x <= g' <= length (concat terms))%nat /\
+    im_pos im' = gpos bits n0 pre0 terms g' /\ cs = between_t pre0 terms (gidx terms x) g'.
+Proof. exact repeat_polls_global. Qed.
+Print Assumptions C05_repeat_global.
+
+(* the end of a full term and the start of the next one are the same position; positions in closed form *)
+Theorem C05_term_end_position : forall bits n0 pre0 terms x, terms_full bits pre0 terms ->
+  lpos bits n0 pre0 terms (norm terms x) = lpos bits n0 pre0 terms x /\ gidx terms (norm terms x) = gidx terms x /\
+  (valid terms x -> lpos bits n0 pre0 terms x = gpos bits n0 pre0 terms (gidx terms x)).
+Proof. intros bits n0 pre0 terms x Hf. split; [apply lpos_norm; exact Hf|]. split; [apply gidx_norm|]. intros Hv. apply lpos_global; assumption. Qed.
+Print Assumptions C05_term_end_position.
+
+Theorem C05_between_terms_app : forall pre0 terms g1 g2 g3, (g1 <= g2 <= g3)%nat ->
+  between_t pre0 terms g1 g2 ++ between_t pre0 terms g2 g3 = between_t pre0 terms g1 g3.
+Proof. exact between_t_app. Qed.
+Print Assumptions C05_between_terms_app.
 
 (* the boundaries of two successive polls concatenate: no frame is skipped or delivered twice *)
 Theorem C05_between_app : forall pre stream a b c, (a <= b <= c)%nat ->
@@ -249,3 +312,28 @@ Proof. split; [|vm_compute; reflexivity].
   intros a1 H1. split; [apply (ex_shows 3); lia|]. split; [lia|]. split; [apply Hin; lia|].
   intros a2 H2. split; [apply (ex_shows 5); lia|]. split; [lia|]. split; [apply Hin; lia|].
   intros; exact I. Qed.
+
+(* C05_repeat_terms is not vacuous: five polls (plain with limit 1, bounded, plain over the end-of-term padding, controlled
+   with Commit, plain) starting 576 bytes before the end of term 2 (term id wrapped) and ending 128 bytes into term 3 *)
+Example C05_repeat_terms_ex :
+  terms_full 16 tx_pre tx_terms /\
+  polls_ok_t 16 2147483647 2 tx_pre tx_terms tx_polls (0%nat, 0%nat) /\
+  lpos 16 2 tx_pre tx_terms (0%nat, 0%nat) = 2 * 65536 + 65536 - 576 /\
+  run_polls tx_polls (mkImage (2 * 65536 + 65536 - 576) false 0 9)
+    = Some (between_t tx_pre tx_terms 0 7, mkImage (3 * 65536 + 128) false 0 9) /\
+  map (fun k => option_map (fun r => im_pos (snd r)) (run_polls (firstn k tx_polls) (mkImage (2 * 65536 + 65536 - 576) false 0 9)))
+      [1; 2; 3; 4; 5]%nat
+    = [Some 196160; Some 196320; Some 196608; Some 196672; Some 196736] /\
+  map fst (between_t tx_pre tx_terms 0 7) = [64960; 65152; 65248; 0; 64] /\
+  gidx tx_terms (1%nat, 2%nat) = 7%nat /\ lpos 16 2 tx_pre tx_terms (1%nat, 2%nat) = 3 * 65536 + 128.
+Proof. exact C05_repeat_terms_example. Qed.
+
+(* block_poll with "no limit" in the middle of a term: the whole run of data frames up to the padding (the defect repaired by
+   C05-block-poll-limit: a debug build panicked here, a release build returned 0 for ever) *)
+Example C05_block_max_example :
+  run_case Debug 16 2147483647 9 (2 * 65536 + 65536 - 576) ex_segs [CBlock 2147483647; CBlock 2147483647; CBlock 2147483647]
+  = run_case Release 16 2147483647 9 (2 * 65536 + 65536 - 576) ex_segs [CBlock 2147483647; CBlock 2147483647; CBlock 2147483647]
+  /\ map (fun ob : cobs => let '(r, _, _, p) := ob in (r, p))
+        (run_case Debug 16 2147483647 9 (2 * 65536 + 65536 - 576) ex_segs [CBlock 2147483647; CBlock 2147483647; CBlock 2147483647])
+     = [(Ok 128, 196160); (Ok 64, 196224); (Ok 160, 196384)].
+Proof. split; vm_compute; reflexivity. Qed.
